@@ -5,6 +5,7 @@ intelhex.open; nothing in the repo is changed.
 """
 import errno
 import io
+import weakref
 import os as _os
 import posixpath
 
@@ -27,11 +28,23 @@ class SimFS:
         self.faults = list(faults or [])
         self.fired = []
         self.mtime = {}
+        self._writers = []
         for d in dirs or ():
             self.mkdirs(d)
         for p, data in (files or {}).items():
             self.put(p, data)
         self.mkdirs(cwd)
+
+    def finalize_leaked(self):
+        """A file object the code under test dropped without closing (an exception between open and close) is closed by the
+        garbage collector at a moment that depends on allocation counts.  Collect at a fixed point of the run instead, so
+        that its close event always lands at the same place in the event log."""
+        live = [w() for w in self._writers]
+        if any(r is not None and not r.closed for r in live):
+            del live
+            import gc
+            gc.collect()
+        self._writers = [w for w in self._writers if w() is not None and not w().closed]
 
     # -- tree --------------------------------------------------------------
     def mkdirs(self, d):
@@ -282,6 +295,7 @@ class SimFS:
                 raise _err(errno.ENOENT, file)
             start = self.files[a]
         raw = _SimWriteRaw(self, a, start, append=(kind == 'a'))
+        self._writers.append(weakref.ref(raw))
         if binary:
             return raw
         return io.TextIOWrapper(raw, encoding=encoding or 'utf-8', errors=errors, newline=newline, write_through=True)
